@@ -247,7 +247,7 @@ def projection(files: dict[str, str], prop: str):
             if mod is None:
                 out.append((path, "<unparsable>"))
             elif prop == "C10":
-                out.append((path, mod["package"], mod["python_module"]))
+                out.append((path, mod["package"], mod["python_module"], tuple(sorted(d["name"] for d in mod["decls"]))))
             elif prop == "C09":
                 out.append((path, mod["package"], mod["python_module"], tuple(mod["imports"])))
             else:
